@@ -41,6 +41,9 @@ enum Op {
     /// MOMENT IT IS DELIVERED (nobody asked for it; built lazily, so that it fits the state a suspended fork
     /// switch has left)
     BX,
+    /// the filters tick (try_send_get_block_filters): recovers the earliest matched-blocks record into the
+    /// in-memory map when that is empty, or asks for the next batch (only as the second operation: it has no write)
+    TK,
     /// reader: get_cells_capacity (only as the paused operation, paused at its read points)
     RD,
 }
@@ -53,6 +56,7 @@ impl Op {
             Op::BL => "Block",
             Op::FK => "Fork",
             Op::BX => "FiltersNow",
+            Op::TK => "FilterTick",
             Op::RD => "Read",
         }
     }
@@ -329,6 +333,9 @@ fn fire(s: &mut Setup, op: Op) {
             let fk = s.fk;
             s.env.answer_proof(&mut s.sim, fk);
         }
+        Op::TK => {
+            s.env.filter_tick(&mut s.sim, 0, true);
+        }
         Op::BX => {
             // the batch is one of branch A, whatever peer 0 serves now
             let cur = s.env.peers[0].server.tip;
@@ -350,6 +357,8 @@ fn lowest_block(msgs: Vec<packed::SyncMessage>) -> Option<packed::SyncMessage> {
 }
 
 enum Raw {
+    /// notify(GET_BLOCK_FILTERS_TOKEN) of the filter protocol
+    Tick,
     /// (peer, its server): the batch is built when the thread runs
     LazyFilters(PeerIndex, HonestPeer),
     Read(usize),
@@ -363,6 +372,11 @@ fn raw(s: &mut Setup, op: Op) -> Raw {
     match op {
         // (a script that is not a prefix of another world script: the capacity is the sum over its own cells)
         Op::RD => Raw::Read(1 + s.ss.1[0].0 % 3),
+        Op::TK => {
+            // (as Env::filter_tick does: the re-ask window counts as elapsed)
+            *s.sim.client_mut().filter.last_ask_time.write().unwrap() = None;
+            Raw::Tick
+        }
         Op::BX => {
             let mut server = s.env.peers[0].server.clone();
             server.tip = s.old_tip;
@@ -518,6 +532,13 @@ fn run_concurrent(s: &mut Setup, a: Raw, b: Raw, k: usize, rd_out: &Arc<Mutex<Op
                 let nc = Arc::clone(&nc_filter);
                 Box::new(move || {
                     let _ = guard(|| block_on(h.received(nc, p, data)));
+                })
+            }
+            Raw::Tick => {
+                let h = filter.take().unwrap();
+                let nc = Arc::clone(&nc_filter);
+                Box::new(move || {
+                    let _ = guard(|| block_on(h.notify(nc, 0)));
                 })
             }
             Raw::LazyFilters(p, server) => {
@@ -687,6 +708,10 @@ pub fn run(kv: &HashMap<String, String>) -> i32 {
             let (a, b) = if ops.contains(&Op::FK) && (race || rng.gen_bool(0.3)) {
                 // the fork switch suspended somewhere, a batch that fits the state it has left so far
                 (Op::FK, Op::BX)
+            } else if rng.gen_bool(0.25) {
+                // the filters tick fires while a writer is suspended
+                let writers: Vec<Op> = ops.iter().cloned().filter(|o| matches!(o, Op::BL | Op::SS | Op::FK)).collect();
+                (writers[rng.gen_range(0..writers.len())], Op::TK)
             } else if rng.gen_bool(0.2) {
                 // a reader paused after its snapshot while a writer runs
                 let writers: Vec<Op> = ops.iter().cloned().filter(|o| *o != Op::SS).collect();
